@@ -180,32 +180,49 @@ def allCtx (fslash : Bool) : Ctx :=
   ⟨{ searchKeys := true, searchAnchors := true, inclValueAliases := true, fslash := fslash }, fun _ => true⟩
 def valCtx (fslash : Bool) : Ctx := ⟨{ inclValueAliases := true, searchAnchors := true, fslash := fslash }, fun _ => true⟩
 
-/-- what is printed (dot notation, values and reference names) … -/
-example : (search (valCtx false) rrDoc).map (fun h => printed h.path) =
-    [.ok "a\\.b[&s]".toList, .ok "a\\.b[1]".toList, .ok "\\/k.k".toList, .ok "\\/k.i".toList,
-     .ok "\\/k[&b]".toList, .ok "b".toList, .ok "1".toList] := by decide +kernel
-/-- … every hit meets the hypothesis of `search_paths_reresolve` and comes back as its address, in both
-notations and with key-name search -/
-example : ((search (valCtx false) rrDoc).all fun h => okAddr (liveIn rrDoc) rrDoc h.addr && reresolves (valCtx false) rrDoc h) = true
-    ∧ ((search (valCtx true) rrDoc).all fun h => okAddr (liveIn rrDoc) rrDoc h.addr && reresolves (valCtx true) rrDoc h) = true
-    ∧ ((search (allCtx false) rrDoc).all fun h => okAddr (liveIn rrDoc) rrDoc h.addr && reresolves (allCtx false) rrDoc h) = true
-    ∧ (search (allCtx true) rrDoc).length = 6 := by decide +kernel
+/-- the hits with value and reference-name search, dot notation (the merge reference is yielded as
+`\/k.[&b]` and printed `\/k[&b]`) … -/
+def rrHits : List Hit :=
+  [⟨"a\\.b[&s]".toList, [.key (.str "a.b".toList), .idx 0]⟩, ⟨"a\\.b[1]".toList, [.key (.str "a.b".toList), .idx 1]⟩,
+   ⟨"\\/k.k".toList, [.key (.str "/k".toList), .key (.str "k".toList)]⟩,
+   ⟨"\\/k.i".toList, [.key (.str "/k".toList), .key (.str "i".toList)]⟩,
+   ⟨"\\/k.[&b]".toList, [.key (.str "/k".toList), .mref 0]⟩, ⟨"b".toList, [.key (.str "b".toList)]⟩,
+   ⟨"s\\ t.m/n".toList, [.key (.str "s t".toList), .member (.str "m/n".toList)]⟩, ⟨"1".toList, [.key (.int 1)]⟩]
+example : search (valCtx false) rrDoc = rrHits := by decide +kernel
+example : printed "\\/k.[&b]".toList = .ok "\\/k[&b]".toList ∧
+    printed "s\\ t.m/n".toList = .ok "s\\ t.m/n".toList := by decide +kernel
+/-- … every one of them meets the hypothesis of `search_paths_reresolve` and comes back as its address -/
+example : (rrHits.all fun h => okAddr (liveIn rrDoc) rrDoc h.addr && reresolves (valCtx false) rrDoc h) = true := by
+  decide +kernel
+/-- the same in forward-slash notation -/
+example : (search (valCtx true) rrDoc).map Hit.path =
+    ["/a.b[&s]".toList, "/a.b[1]".toList, "/\\/k/k".toList, "/\\/k/i".toList, "/\\/k/[&b]".toList, "/b".toList,
+     "/s\\ t/m\\/n".toList, "/1".toList] := by decide +kernel
+example : reresolves (valCtx true) rrDoc ⟨"/\\/k/[&b]".toList, [.key (.str "/k".toList), .mref 0]⟩ = true ∧
+    reresolves (valCtx true) rrDoc ⟨"/s\\ t/m\\/n".toList, [.key (.str "s t".toList), .member (.str "m/n".toList)]⟩ = true := by
+  decide +kernel
 
 /-- **K1** (`{1: x, '1': y}`): the hypothesis fails, and the printed `1` resolves to both entries -/
-example : (search ⟨{}, fun _ => true⟩ clashDoc).map (fun h => (okAddr (liveIn clashDoc) clashDoc h.addr, reresolves ⟨{}, fun _ => true⟩ clashDoc h))
-    = [(false, false), (false, false)] := by decide +kernel
+example : okAddr (liveIn clashDoc) clashDoc [.key (.int 1)] = false ∧
+    reresolves ⟨{}, fun _ => true⟩ clashDoc ⟨"1".toList, [.key (.int 1)]⟩ = false ∧
+    resolve (liveIn clashDoc) clashDoc [(.key, .str "1".toList)] = [[.key (.int 1)], [.key (.str "1".toList)]] := by
+  decide +kernel
 
 /-- **K2** (`{'a*': a}`): `a*` is printed, which is a wildcard search, not a key -/
 def starDoc : SNode := .map none [(⟨none, .str "a*".toList⟩, .scalar none (.str "a".toList))] [] []
-example : (search ⟨{}, fun _ => true⟩ starDoc).map (fun h => (h.path, okAddr (liveIn starDoc) starDoc h.addr, reresolves ⟨{}, fun _ => true⟩ starDoc h))
-    = [("a*".toList, false, false)] := by decide +kernel
+example : search ⟨{}, fun _ => true⟩ starDoc = [⟨"a*".toList, [.key (.str "a*".toList)]⟩] ∧
+    okAddr (liveIn starDoc) starDoc [.key (.str "a*".toList)] = false ∧
+    reresolves ⟨{}, fun _ => true⟩ starDoc ⟨"a*".toList, [.key (.str "a*".toList)]⟩ = false := by decide +kernel
 
 /-- **K5** (`z: &z {}`, `m: {<<: *z}`): the empty merge source is falsy, `m[&z]` finds nothing -/
 def emptySrcDoc : SNode :=
   .map none [(⟨none, .str "z".toList⟩, .map (some "z".toList) [] [] []),
              (⟨none, .str "m".toList⟩, .map none [] [] ["z".toList])] [] []
-example : (search (valCtx false) emptySrcDoc).map (fun h => (printed h.path, okAddr (liveIn emptySrcDoc) emptySrcDoc h.addr, reresolves (valCtx false) emptySrcDoc h))
-    = [(.ok "z".toList, true, true), (.ok "m[&z]".toList, false, false)] := by decide +kernel
+example : search (valCtx false) emptySrcDoc =
+      [⟨"z".toList, [.key (.str "z".toList)]⟩, ⟨"m.[&z]".toList, [.key (.str "m".toList), .mref 0]⟩] ∧
+    okAddr (liveIn emptySrcDoc) emptySrcDoc [.key (.str "m".toList), .mref 0] = false ∧
+    reresolves (valCtx false) emptySrcDoc ⟨"m.[&z]".toList, [.key (.str "m".toList), .mref 0]⟩ = false := by
+  decide +kernel
 
 /-- **K6** (found by the proof of `escapePathSection_eq`): a key with two adjacent backslashes.
 `escape_path_section('a\\b')` (four characters) is `a\\b` unchanged — the first `ensure_escaped` pass takes
@@ -214,7 +231,9 @@ def dblDoc : SNode := .map none [(⟨none, .str ['a', '\\', '\\', 'b']⟩, .scal
 example : escapePathSection '.' ['a', '\\', '\\', 'b'] = ['a', '\\', '\\', 'b'] ∧
     escText '.' ['a', '\\', '\\', 'b'] = ['a', '\\', '\\', '\\', '\\', 'b'] ∧
     parse true ['a', '\\', '\\', 'b'] = .ok [(.key, .str ['a', '\\', 'b'])] ∧
-    (search ⟨{}, fun _ => true⟩ dblDoc).map (fun h => (okAddr (liveIn dblDoc) dblDoc h.addr, reresolves ⟨{}, fun _ => true⟩ dblDoc h))
-      = [(false, false)] := by decide +kernel
+    search ⟨{}, fun _ => true⟩ dblDoc = [⟨['a', '\\', '\\', 'b'], [.key (.str ['a', '\\', '\\', 'b'])]⟩] ∧
+    okAddr (liveIn dblDoc) dblDoc [.key (.str ['a', '\\', '\\', 'b'])] = false ∧
+    reresolves ⟨{}, fun _ => true⟩ dblDoc ⟨['a', '\\', '\\', 'b'], [.key (.str ['a', '\\', '\\', 'b'])]⟩ = false := by
+  decide +kernel
 
 end Ypv.C07
